@@ -155,3 +155,12 @@ Example ex_skipped :
                               KPairs 1 [0;0;0;0;0;0] [(3, 4, 6%Z)]])
   = Ok [(false, false, 3, 4, 6%Z)].
 Proof. vm_compute. reflexivity. Qed.
+
+(* subtables do not overlap (fixes/C02-kern-overlapping-subtables.diff): the
+   first subtable says length 14 but has one record; the second subtable is
+   read after that record, not on top of it *)
+Example ex_kern_no_overlap :
+  run_kern_read [0;0;0;2;  0;0;0;14;0;1; 0;1;0;0;0;0;0;0; 0;0;0;20;0;1;
+                           0;0;0;14;0;1; 0;1;0;0;0;0;0;0; 0;1;0;2;0;5]
+  = Ok [(20, 1%Z); (65538, 5%Z)].
+Proof. vm_compute. reflexivity. Qed.
